@@ -195,10 +195,9 @@ class _StderrFilter:
 
 
 def worker_main(mod, partname, tier, seed, shard, nshards, budget, out):
-    try:
-        os.setpgid(0, 0)  # own process group: everything this shard starts can be found (and killed) at the end
-    except OSError:
-        pass
+    from . import core
+
+    core.own_group()  # own process group: everything this shard starts can be found (and killed) at the end
     cap_memory()
     sys.stderr = _StderrFilter(sys.stderr)
     tree.use()
@@ -366,6 +365,9 @@ def main(argv=None):
         return worker_main(mod, pn, args.tier, seed, int(sh), int(ns), int(bu), out)
 
     if args.replay:
+        from . import core
+
+        core.own_group()
         try:
             rec, res = replay_file(mod, args.replay)
         except Exception:
@@ -379,6 +381,9 @@ def main(argv=None):
         return 2 if res == "inconclusive" else 0
 
     cap_memory()
+    from . import core
+
+    core.own_group()
     t0 = time.time()
     violations = []  # (part, bucket, replay path, detail)
     known_lines = []
